@@ -177,6 +177,29 @@ func concStress(g *Gen, img []byte, v VOpts, dir string) string {
 					_ = wf.AddObject(di, sif.OptAddDeterministic())
 				}
 			}
+			if r.Chance(2, 3) {
+				// … and on which modifications were then refused (each leaves the image as it was):
+				// an object that does not exist, a name that is too long, a data source that fails, a
+				// full descriptor table
+				_ = wf.DeleteObject(9999, sif.OptDeleteDeterministic())
+				_ = wf.SetPrimPart(9999, sif.OptSetDeterministic())
+				if di, derr := sif.NewDescriptorInput(sif.DataGeneric, bytes.NewReader([]byte("x")), sif.OptObjectName(strings.Repeat("n", 129))); derr == nil {
+					_ = wf.AddObject(di, sif.OptAddDeterministic())
+				}
+				if di, derr := sif.NewDescriptorInput(sif.DataGeneric, &failReader{data: []byte("abc")}); derr == nil {
+					_ = wf.AddObject(di, sif.OptAddDeterministic())
+				}
+				if r.Chance(1, 2) {
+					for k := 0; k < 300; k++ {
+						di, derr := sif.NewDescriptorInput(sif.DataGeneric, bytes.NewReader([]byte{byte(k)}), sif.OptGroupID(1))
+						if derr != nil || wf.AddObject(di, sif.OptAddDeterministic()) != nil {
+							break
+						}
+					}
+					g.count("conc:after-add-refused-on-full-table")
+				}
+				g.count("conc:after-refused-modifications")
+			}
 			ref, closeRef, rerr := openHandle(append([]byte(nil), buf.Bytes()...), "buf", dir, 9)
 			if rerr != nil {
 				_ = wf.UnloadContainer()
